@@ -410,9 +410,9 @@ func u64s(a []uint64) []byte {
 func main() {
 	_ = fmt.Sprint
 	core.Main(&core.Property{
-		ID:    "C14PRIM",
-		Level: "exploration",
-		Rule:  "primitive-level transcript for C14",
+		ID:       "C14PRIM",
+		Level:    "exploration",
+		Rule:     "primitive-level transcript for C14",
 		Directed: directed,
 		Gen:      gen,
 		Exec:     exec,
